@@ -13,7 +13,7 @@ TOL = 1e-9
 
 def generate(ctx):
     rng = ctx.rng
-    for _ in range(ctx.n(800, 12000)):
+    for _ in range(ctx.n(2000, 12000)):
         cls = rng.choice(["generic-tree", "generic-tree", "generic-cyclic", "collinear-chain",
                           "partly-collinear", "nearly-collinear", "lattice", "two-atom", "one-atom"])
         pos, bonds, cls = E.gen_ref(rng, cls)
